@@ -3,6 +3,7 @@
   (split of the source-tie helper lemmas so that an edit of one Rust function only breaks the properties that
   depend on that function; headline statements in `Props/SrcTiePrefix.lean`)
 -/
+import RenetVerif.Generated.Src.Prefix
 import RenetVerif.Lemmas.SrcEquiv.Prims
 namespace RenetVerif.SrcEquiv
 open RenetVerif RenetVerif.RustSem
